@@ -35,13 +35,13 @@ import (
 // ---------------------------------------------------------------- ops
 
 type op struct {
-	k    byte // n p a r w u c f v s
+	k    byte // n p a r w u c f v s t
 	a, b int
 }
 
 func (o op) String() string {
 	switch o.k {
-	case 'n', 'r', 'v':
+	case 'n', 'r', 'v', 't':
 		return fmt.Sprintf("%c:%d", o.k, o.a)
 	}
 	return fmt.Sprintf("%c:%d:%d", o.k, o.a, o.b)
@@ -312,6 +312,15 @@ func (w *world) exec(th *thr, o op) (res byte) {
 			return 't'
 		}
 		return 'f'
+	case 't':
+		st := w.cs[o.a].State()
+		if st.Brand.Value == nil && !st.IsPromise {
+			return 'n'
+		}
+		if st.IsPromise {
+			return 't'
+		}
+		return 'f'
 	}
 	return '?'
 }
@@ -509,7 +518,7 @@ func (g *gen) clientSlot() int {
 
 func (g *gen) genOp(th int) (op, bool) {
 	r := g.r
-	switch r.Pick(20, 22, 8, 10, 18, 10, 6, 6) {
+	switch r.Pick(20, 22, 8, 10, 18, 10, 6, 6, 5) {
 	case 0: // AddRef
 		s := g.clientSlot()
 		d := g.nc
@@ -579,8 +588,10 @@ func (g *gen) genOp(th int) (op, bool) {
 		return op{'f', p, s}, true
 	case 6:
 		return op{'v', g.clientSlot(), 0}, true
-	default:
+	case 7:
 		return op{'s', g.clientSlot(), g.clientSlot()}, true
+	default:
+		return op{'t', g.clientSlot(), 0}, true
 	}
 }
 
@@ -698,7 +709,7 @@ func genDirected(r *Rand) [][]op {
 		var p []op
 		for j := 1 + r.Intn(2); j > 0; j-- {
 			c := pcl[r.Intn(len(pcl))]
-			switch r.Pick(5, 3, 3, 1, 1) {
+			switch r.Pick(5, 3, 3, 1, 1, 1) {
 			case 0:
 				p = append(p, op{'r', c, 0})
 			case 1:
@@ -713,11 +724,76 @@ func genDirected(r *Rand) [][]op {
 				} else {
 					p = append(p, op{'v', c, 0})
 				}
-			default:
+			case 4:
 				p = append(p, op{'s', c, 0})
+			default:
+				p = append(p, op{'t', c, 0})
 			}
 		}
 		progs = append(progs, p)
+	}
+	return progs
+}
+
+// genDirectedWeak: weak upgrades racing with the release of the last strong reference(s),
+// optionally with a call in progress (Shutdown then waits for the call while upgrades must
+// already be refused) and with the capability behind a promise.
+func genDirectedWeak(r *Rand) [][]op {
+	var setup []op
+	nc := 0
+	viaPromise := r.Intn(3) == 0
+	if viaPromise {
+		setup = append(setup, op{'n', 0, 0}, op{'p', 1, 0}) // c0 -> h0, c1 -> P
+		nc = 2
+	} else {
+		setup = append(setup, op{'n', 0, 0})
+		nc = 1
+	}
+	strong := []int{nc - 1}
+	for i := r.Intn(2); i > 0; i-- {
+		setup = append(setup, op{'a', nc - 1, nc})
+		strong = append(strong, nc)
+		nc++
+	}
+	nweak := 1 + r.Intn(2)
+	for i := 0; i < nweak; i++ {
+		setup = append(setup, op{'w', strong[r.Intn(len(strong))], i})
+	}
+	progs := [][]op{setup}
+	// releasers: together they drop every strong reference
+	nrel := 1 + r.Intn(2)
+	rel := make([][]op, nrel)
+	for i, s := range strong {
+		rel[i%nrel] = append(rel[i%nrel], op{'r', s, 0})
+	}
+	for _, p := range rel {
+		if len(p) > 0 {
+			progs = append(progs, p)
+		}
+	}
+	// one upgrader per weak ref (a WeakClient value is used by one goroutine only)
+	for i := 0; i < nweak; i++ {
+		var p []op
+		for j := 1 + r.Intn(2); j > 0; j-- {
+			d := nc
+			nc++
+			p = append(p, op{'u', i, d})
+			switch r.Intn(4) {
+			case 0:
+				p = append(p, op{'c', d, r.Intn(2)})
+			case 1:
+				p = append(p, op{'r', d, 0})
+			case 2:
+				p = append(p, op{'t', d, 0})
+			}
+		}
+		progs = append(progs, p)
+	}
+	if r.Intn(2) == 0 {
+		progs = append(progs, []op{{'c', strong[0], r.Intn(2)}})
+	}
+	if viaPromise && r.Bool() {
+		progs = append(progs, []op{{'f', 0, 0}})
 	}
 	return progs
 }
@@ -733,6 +809,9 @@ func run(out *Out, r *Rand, tier string, replay []string) {
 	}
 	tests := []testing.InternalTest{{Name: "C10", F: func(t *testing.T) {
 		capnp.VerifYieldHook = yieldHook
+		opKinds := map[string]int{}
+		opName := map[byte]string{'n': "NewClient", 'p': "NewPromisedClient", 'a': "AddRef", 'r': "Release", 'w': "WeakRef",
+			'u': "WeakClient.AddRef", 'c': "SendCall/RecvCall", 'f': "Fulfill", 'v': "IsValid", 's': "IsSame", 't': "State"}
 		runOne := func(kind, mode string, progs [][]op, sched []int) {
 			type result struct {
 				obs  string
@@ -768,6 +847,11 @@ func run(out *Out, r *Rand, tier string, replay []string) {
 			if len(res.used) > 0 {
 				ss = Ints(res.used)
 			}
+			for _, p := range progs {
+				for _, o := range p {
+					opKinds[opName[o.k]]++
+				}
+			}
 			line := fmt.Sprintf("%s %s %s %s", kind, fixed, progsString(progs), ss)
 			nontriv := strings.Contains(res.obs, "X") || strings.Contains(res.obs, "S") || strings.Contains(res.obs, "V")
 			out.Case(kind, line, res.obs, Cls(res.obs), nontriv)
@@ -800,6 +884,10 @@ func run(out *Out, r *Rand, tier string, replay []string) {
 					runOne(mode, mode, genDirected(r), nil)
 					continue
 				}
+				if i%8 == 3 {
+					runOne(mode, mode, genDirectedWeak(r), nil)
+					continue
+				}
 				progs, mis := genHistory(r, mode)
 				kind := mode
 				if mis {
@@ -808,6 +896,7 @@ func run(out *Out, r *Rand, tier string, replay []string) {
 				runOne(kind, mode, progs, nil)
 			}
 		}
+		out.Extra["x_op_kinds"] = opKinds
 		out.Close("non-trivial = the history delivers a call or shuts a capability down (event log non-empty)")
 	}}}
 	testing.Main(func(pat, str string) (bool, error) { return true, nil }, tests, nil, nil)
